@@ -39,11 +39,18 @@ pub struct Plan {
 }
 
 /// actor identities per layout: ascending, descending, extremes of u8, sparse, shuffled
-pub const ACTOR_LAYOUTS: [[u8; 5]; 6] = [[1, 2, 3, 4, 5], [5, 4, 3, 2, 1], [0, 255, 128, 1, 254], [255, 0, 9, 250, 3], [10, 20, 30, 40, 50], [3, 1, 2, 0, 4]];
+pub const ACTOR_LAYOUTS: [[u8; 16]; 6] = [
+    [1, 2, 3, 4, 5, 6, 7, 8, 9, 10, 11, 12, 13, 14, 15, 16],
+    [16, 15, 14, 13, 12, 11, 10, 9, 8, 7, 6, 5, 4, 3, 2, 1],
+    [0, 255, 128, 1, 254, 127, 2, 253, 64, 192, 32, 224, 16, 240, 8, 248],
+    [255, 0, 9, 250, 3, 100, 101, 99, 50, 150, 25, 75, 125, 175, 225, 5],
+    [10, 20, 30, 40, 50, 60, 70, 80, 90, 100, 110, 120, 130, 140, 150, 160],
+    [3, 1, 2, 0, 4, 9, 7, 5, 8, 6, 13, 11, 12, 10, 15, 14],
+];
 
 impl Plan {
     pub fn actor_of(&self, replica: usize) -> u8 {
-        ACTOR_LAYOUTS[idx(self.actors, ACTOR_LAYOUTS.len())][replica % 5]
+        ACTOR_LAYOUTS[idx(self.actors, ACTOR_LAYOUTS.len())][replica % 16]
     }
 }
 
@@ -161,16 +168,17 @@ pub fn plan_strategy(cfg: &PlanCfg) -> BoxedStrategy<Plan> {
         cfg.steps.1 = cfg.steps.1 * 3 / 2;
         cfg.editors.1 = (cfg.editors.1 + 1).min(5);
     }
-    // 4 % of the cases are LONG histories (3-4x the usual length, up to 110 steps): deep states (long lists, counters
-    // in the tens, many pending removes) that short histories never reach
+    // 4 % of the cases are LONG histories (90-130 steps, up to 6 editors) and 3 % are WIDE ones (8-16 editing replicas,
+    // 100-130 steps; deliveries and merges are skewed towards a few hub replicas by the interpreter): deep states
+    // (long lists, counters in the tens, many pending removes, clocks with a dozen actors, many concurrent values,
+    // wide fan-in) that short histories among 2-4 replicas never reach
     let long_lo = (cfg.steps.1 * 3).min(90);
-    let long_hi = (cfg.steps.1 * 4).min(110);
-    let steps = prop_oneof![
-        96 => proptest::collection::vec(step_strategy(&cfg.w), cfg.steps.0..=cfg.steps.1),
-        4 => proptest::collection::vec(step_strategy(&cfg.w), long_lo..=long_hi),
-    ];
-    let settle = proptest::collection::vec(any::<u16>(), cfg.settle..=cfg.settle);
-    (cfg.editors.0..=cfg.editors.1, cfg.observers.0..=cfg.observers.1, steps, settle, any::<u16>())
+    let long_hi = (cfg.steps.1 * 5).min(130);
+    let settle = || proptest::collection::vec(any::<u16>(), cfg.settle..=cfg.settle);
+    let normal = (cfg.editors.0..=cfg.editors.1, cfg.observers.0..=cfg.observers.1, proptest::collection::vec(step_strategy(&cfg.w), cfg.steps.0..=cfg.steps.1), settle(), any::<u16>());
+    let long = (cfg.editors.0..=(cfg.editors.1 + 2).min(6), cfg.observers.0..=cfg.observers.1, proptest::collection::vec(step_strategy(&cfg.w), long_lo..=long_hi), settle(), any::<u16>());
+    let wide = (8u8..=16, cfg.observers.0..=cfg.observers.1, proptest::collection::vec(step_strategy(&cfg.w), 100usize..=130), settle(), any::<u16>());
+    prop_oneof![93 => normal, 4 => long, 3 => wide]
         .prop_map(|(editors, observers, steps, settle, actors)| Plan { editors, observers, steps, settle, actors })
         .boxed()
 }
@@ -239,4 +247,86 @@ pub fn decode_plan(cfg: &PlanCfg, data: &[u8]) -> Option<Plan> {
         steps.push(s);
     }
     Some(Plan { editors, observers, steps, settle, actors })
+}
+
+/// inverse of `decode_plan` (used to seed the fuzzing corpus with meaningful histories: known-finding replays
+/// and proptest-generated Plans)
+pub fn encode_plan(cfg: &PlanCfg, plan: &Plan) -> Vec<u8> {
+    let mut out: Vec<u8> = Vec::new();
+    let put16 = |out: &mut Vec<u8>, v: u16| {
+        out.push((v >> 8) as u8);
+        out.push((v & 0xff) as u8);
+    };
+    out.push(plan.editors.saturating_sub(cfg.editors.0).min(cfg.editors.1 - cfg.editors.0));
+    out.push(plan.observers.saturating_sub(cfg.observers.0).min(cfg.observers.1 - cfg.observers.0));
+    for i in 0..cfg.settle {
+        put16(&mut out, plan.settle.get(i).copied().unwrap_or(0));
+    }
+    // preserve the actor-layout index exactly
+    out.push((idx(plan.actors, ACTOR_LAYOUTS.len()) * 43 + 21) as u8);
+    let w = &cfg.w;
+    let table = [w.edit, w.deliver, w.redeliver, w.merge, w.snapshot, w.merge_snapshot, w.save_restore, w.probe];
+    let total: u32 = table.iter().sum();
+    let kind_byte = |k: usize| -> Option<u8> {
+        if table[k] == 0 {
+            return None;
+        }
+        let start: u32 = table[..k].iter().sum();
+        // smallest x with (x * total) >> 8 >= start, moved into the middle of the range
+        for x in 0u32..256 {
+            let v = (x * total) >> 8;
+            if v >= start && v < start + table[k] {
+                let mid = x + ((table[k] * 256 / total) / 2).min(255 - x);
+                let vm = (mid * total) >> 8;
+                return Some(if vm >= start && vm < start + table[k] { mid as u8 } else { x as u8 });
+            }
+        }
+        None
+    };
+    for s in &plan.steps {
+        let (k, fields): (usize, Vec<u16>) = match *s {
+            Step::Edit { r, kind, a, b, c, d, e, f } => (0, vec![r, kind, a, b, c, d, e, f]),
+            Step::Deliver { r, pick } => (1, vec![r, pick]),
+            Step::Redeliver { r, pick } => (2, vec![r, pick]),
+            Step::Merge { dst, src } => (3, vec![dst, src]),
+            Step::Snapshot { r } => (4, vec![r]),
+            Step::MergeSnapshot { dst, pick } => (5, vec![dst, pick]),
+            Step::SaveRestore { r } => (6, vec![r]),
+            Step::Probe { a, b, c, d } => (7, vec![a, b, c, d]),
+        };
+        let Some(kb) = kind_byte(k) else { continue };
+        out.push(kb);
+        for v in fields {
+            put16(&mut out, v);
+        }
+    }
+    out
+}
+
+#[cfg(test)]
+mod tests {
+    use super::*;
+    use proptest::strategy::ValueTree;
+    use proptest::test_runner::TestRunner;
+    #[test]
+    fn encode_decode_round_trip() {
+        for w in [Weights::ops_only(), Weights::mixed().with_probe(10).with_save(5)] {
+            let cfg = PlanCfg::new(w).steps(4, 28);
+            let mut runner = TestRunner::deterministic();
+            let s = plan_strategy(&cfg);
+            for _ in 0..300 {
+                let p = s.new_tree(&mut runner).unwrap().current();
+                if p.editors > cfg.editors.1 || p.steps.len() > cfg.steps.1 + 12 {
+                    continue; // long-history plans exceed the byte decoder's bounds
+                }
+                let bytes = encode_plan(&cfg, &p);
+                let q = decode_plan(&cfg, &bytes).unwrap();
+                assert_eq!(p.editors, q.editors);
+                assert_eq!(p.observers, q.observers);
+                assert_eq!(p.steps, q.steps);
+                assert_eq!(p.settle, q.settle);
+                assert_eq!(idx(p.actors, ACTOR_LAYOUTS.len()), idx(q.actors, ACTOR_LAYOUTS.len()));
+            }
+        }
+    }
 }
